@@ -8,9 +8,11 @@ require (
 	github.com/codelaboratoryltd/bng v0.0.0
 	github.com/insomniacslk/dhcp v0.0.0-20231206064809-8c70d406f6d2
 	go.uber.org/zap v1.27.0
+	layeh.com/radius v0.0.0-20231213012653-1006025d24f8
 )
 
 require (
+	github.com/google/uuid v1.6.0 // indirect
 	github.com/josharian/native v1.1.0 // indirect
 	github.com/mdlayher/packet v1.1.2 // indirect
 	github.com/mdlayher/socket v0.5.0 // indirect
@@ -24,7 +26,6 @@ require (
 	golang.org/x/sync v0.19.0 // indirect
 	golang.org/x/sys v0.39.0 // indirect
 	golang.org/x/time v0.14.0 // indirect
-	layeh.com/radius v0.0.0-20231213012653-1006025d24f8 // indirect
 )
 
 replace github.com/codelaboratoryltd/bng => /repo
